@@ -169,8 +169,14 @@ fn check_body(ctx: Ctx, body: &str, t: &Table, st: &mut Stats) {
     let c = build(ctx, body);
     let imp = match impl_tokens(&c, &[]) {
         Ok(i) => i,
-        Err(_) => {
-            st.count("impl_panicked(C04's business)");
+        Err(m) => {
+            // a reference that makes the tokenizer panic does not "yield the code point the spec prescribes"
+            st.evaluations += 1;
+            st.violation(
+                &format!("charref:panic:{}", crate::report::panic_signature(&m)),
+                &format!("{ctx:?} body={}: the tokenizer panicked: {m}", show(body)),
+                json!({"ctx": format!("{ctx:?}"), "body": body, "case": c.to_json()}),
+            );
             return;
         },
     };
